@@ -45,8 +45,8 @@ Forms == <<
   F("em[t=v !m]",        "em",  "",  <<>>,         <<<<"t", "v">>>>,           NOTEXT,               FALSE, FALSE),     \* an implied attribute without value is not printed
   F("x[!m]",             "x",   "",  <<>>,         <<>>,                       NOTEXT,               FALSE, FALSE),
   F("p.c[!m u=w !g]",    "p",   "",  <<"c">>,      <<<<"u", "w">>>>,           NOTEXT,               FALSE, FALSE),
-  F("x{one\ntwo\n}",     "x",   "",  <<>>,         <<>>,                       <<"one", "two">>,     FALSE, FALSE),     \* a final line break adds no line
-  F("em{note\n}",        "em",  "",  <<>>,         <<>>,                       <<"note">>,           FALSE, FALSE),
+  F("x{one\ntwo\n}",     "x",   "",  <<>>,         <<>>,                       <<"one", "two", "">>, FALSE, FALSE),     \* a final line break is followed by a last, empty line
+  F("em{note\n}",        "em",  "",  <<>>,         <<>>,                       <<"note", "">>,       FALSE, FALSE),
   F("p{a\n\nb}",         "p",   "",  <<>>,         <<>>,                       <<"a", "", "b">>,     FALSE, FALSE) >>     \* a blank line is a line
 FormKey(k) == "F" \o ToString(k)
 KeyIdx(key) == CHOOSE k \in 1..Len(Forms) : FormKey(k) = key
